@@ -76,6 +76,9 @@ class dtype:
     def __call__(self, x=0):
         return cast_scalar(x, self)
 
+    def __len__(self):
+        return 0
+
     @property
     def str(self):
         return {"float64": "<f8", "float32": "<f4", "int32": "<i4", "int64": "<i8", "uint32": "<u4", "bool": "|b1",
@@ -153,6 +156,9 @@ class RecDtype:
 
     def __repr__(self):
         return f"RecDtype({self.fields_})"
+
+    def __len__(self):
+        return len(self.fields_)
 
     def field(self, name):
         for n, d in self.fields_:
@@ -401,6 +407,11 @@ class _NdMeta(type):
         return type.__instancecheck__(cls, x) or (cls is ndarray and isinstance(x, _rnp.ndarray))
 
 
+def isnd(x):
+    """a model array (real numpy arrays satisfy isinstance(x, np.ndarray) for the code under analysis, not this)"""
+    return type.__instancecheck__(ndarray, x)
+
+
 class ndarray(metaclass=_NdMeta):
     __array_priority__ = 1000
     __hash__ = None
@@ -590,7 +601,7 @@ class ndarray(metaclass=_NdMeta):
             raise ShimUnsupported("arithmetic with record arrays")
         if isinstance(o, (list, tuple, _rnp.ndarray)):
             o = array(o)
-        if isinstance(o, ndarray):
+        if isnd(o):
             a, b = broadcast(self, o)
             res = [f(x, y) for x, y in zip(a._d, b._d)]
             rdt = dt or (float64 if div and promote(self.dtype, o.dtype).kind != "f" else promote(self.dtype, o.dtype))
@@ -737,7 +748,7 @@ def _npbool(r):
     """numpy returns np.bool_ from reductions: `~np.all(x)` must be a logical not, not Python's ~True == -2"""
     if isinstance(r, _pybool):
         return _rnp.bool_(r)
-    if isinstance(r, ndarray) and r.dtype.kind != "b":
+    if isnd(r) and r.dtype.kind != "b":
         r.dtype = bool_
     return r
 
@@ -984,7 +995,7 @@ def _reduce(a, axis, f, name, ident=None, pre=None):
 # array construction
 # ----------------------------------------------------------------------------
 def _shape_of(v):
-    if isinstance(v, ndarray):
+    if isnd(v):
         return v.shape
     if isinstance(v, _rnp.ndarray):
         return v.shape
@@ -1003,7 +1014,7 @@ def _shape_of(v):
 
 
 def _flat_of(v, out):
-    if isinstance(v, ndarray):
+    if isnd(v):
         out.extend(v._d)
     elif isinstance(v, _rnp.ndarray):
         out.extend(v.ravel().tolist() if v.dtype.kind != "V" else list(v.ravel()))
@@ -1038,7 +1049,7 @@ def array(x, dtype=None, copy=True, ndmin=0):
         x = from_real(x)
         if isinstance(x, (RecArray, RecScalar)):
             return x
-    if isinstance(x, ndarray):
+    if isnd(x):
         r = ndarray(list(x._d), x.shape, x.dtype)
         return r.astype(d) if d is not None and d is not x.dtype else r
     if isinstance(x, (set, frozenset, dict)) or hasattr(x, "__next__"):
@@ -1062,7 +1073,7 @@ def array(x, dtype=None, copy=True, ndmin=0):
 def asarray(x, dtype=None):
     if isinstance(x, (RecArray, RecScalar)):
         return x
-    if isinstance(x, ndarray) and (dtype is None or as_dtype(dtype) is x.dtype):
+    if isnd(x) and (dtype is None or as_dtype(dtype) is x.dtype):
         return x
     return array(x, dtype)
 
@@ -1091,7 +1102,7 @@ class RecScalar:
     def __setitem__(self, k, v):
         if isinstance(k, str):
             k = self.names.index(k)
-        self.vals[k] = _py(v) if not isinstance(v, ndarray) else v.item()
+        self.vals[k] = _py(v) if not isnd(v) else v.item()
 
     def tolist(self):
         return tuple(self.vals)
@@ -1135,7 +1146,7 @@ class RecArray(ndarray):
         self.names = list(names)
         self.cols = {}
         for n, c in zip(names, cols):
-            if not isinstance(c, ndarray):
+            if not isnd(c):
                 c = array(list(c)) if len(c) else ndarray([], (0,), dt.field(n) if dt else float64)
             self.cols[n] = c
         n0 = self.cols[self.names[0]].shape[0] if self.names else 0
@@ -1162,7 +1173,7 @@ class RecArray(ndarray):
             return self.cols[k]
         if isinstance(k, list) and k and builtins.all(isinstance(s, str) for s in k):
             return RecArray(k, [self.cols[n] for n in k], RecDtype([(n, self.dtype.field(n)) for n in k]))
-        if isinstance(k, (_pyint, SInt, _rnp.integer)) or (isinstance(k, ndarray) and k.ndim == 0):
+        if isinstance(k, (_pyint, SInt, _rnp.integer)) or (isnd(k) and k.ndim == 0):
             k = k.__index__()
             if k < 0:
                 k += self.shape[0]
@@ -1225,7 +1236,7 @@ def fromarrays(cols, dtype=None, names=None, formats=None):
     if isinstance(names, str):
         names = [n.strip() for n in names.split(",")]
     d = as_dtype(dtype) if dtype is not None else None
-    if isinstance(cols, ndarray):
+    if isnd(cols):
         cols = cols.rows()
     cols = list(cols)
     if d is None:
@@ -1285,8 +1296,8 @@ def _positions_1d(n, k):
               for s in (k.start, k.stop, k.step)]
         return list(range(*slice(*st).indices(n)))
     if isinstance(k, (list, tuple, _rnp.ndarray, range)):
-        k = array(k) if not isinstance(k, ndarray) else k
-    if isinstance(k, ndarray):
+        k = array(k) if not isnd(k) else k
+    if isnd(k):
         if k.dtype.kind == "b":
             if k.ndim != 1 or k.shape[0] != n:
                 raise IndexError(f"boolean index did not match indexed array; dimension is {n} "
@@ -1335,7 +1346,7 @@ def take_axis(a, axis, positions, keep=True):
 
 
 def _is_scalar_index(k):
-    return isinstance(k, (_pyint, SInt, _rnp.integer)) or (isinstance(k, ndarray) and k.ndim == 0 and k.dtype.kind in "iu")
+    return isinstance(k, (_pyint, SInt, _rnp.integer)) or (isnd(k) and k.ndim == 0 and k.dtype.kind in "iu")
 
 
 def _getitem(a, key):
@@ -1369,7 +1380,7 @@ def _getitem(a, key):
             continue
         n = res.shape[axis]
         if _is_scalar_index(k):
-            if isinstance(k, ndarray):
+            if isnd(k):
                 k = k.item()
             p = _norm_index(n, k)
             res = take_axis(res, axis, [p], keep=False)
@@ -1413,7 +1424,7 @@ def _getitem_zip(a, key):
                 arr = ndarray(_positions_1d(a.shape[ax], arr), None or (len(_positions_1d(a.shape[ax], arr)),), int64)
             advs.append((ax, arr))
         elif _is_scalar_index(k):
-            advs.append((ax, ndarray([k if not isinstance(k, ndarray) else k.item()], (1,), int64)))
+            advs.append((ax, ndarray([k if not isnd(k) else k.item()], (1,), int64)))
         elif not (isinstance(k, slice) and k == slice(None)):
             raise ShimUnsupported("mixed slice + multiple advanced indices")
     m = builtins.max(x.size for _, x in advs)
@@ -1435,7 +1446,7 @@ def _getitem_zip(a, key):
     if axes[0] == 0:
         flat = []
         for r in rows:
-            flat.extend(r._d if isinstance(r, ndarray) else [r])
+            flat.extend(r._d if isnd(r) else [r])
         return ndarray(flat, (m,) + rows[0].shape, a.dtype)
     raise ShimUnsupported("zipped advanced indices not on leading axes")
 
@@ -1444,13 +1455,13 @@ def _setitem(a, key, val):
     # positions = same key applied to an array of flat offsets
     offs = ndarray(list(range(len(a._d))), a.shape, int64)
     tgt = _getitem(offs, key)
-    if not isinstance(tgt, ndarray):
+    if not isnd(tgt):
         tgt = ndarray([tgt], (), int64)
     if isinstance(val, (RecArray, RecScalar)):
         raise ShimUnsupported("assigning records into a plain array")
     if isinstance(val, (list, tuple, _rnp.ndarray)):
         val = array(val)
-    if isinstance(val, ndarray):
+    if isnd(val):
         if val.size == 1 and tgt.size != 1:
             vals = [val._d[0]] * tgt.size
         else:
